@@ -135,7 +135,8 @@ def make_policy(program, table):
         if dec == "inline":
             out = ("inline",)
         elif dec.startswith("ref:"):
-            out = ("ref", program.func(dec[4:]))
+            body, _, pre = dec[4:].partition("|pre:")
+            out = ("ref", program.func(body), program.func(pre) if pre else None)
         else:
             raise Unsupported("bad policy entry %r" % (dec,))
         cache[key] = out
@@ -229,7 +230,9 @@ def contract_driver(program, c, findings=()):
         olds = {k: deepcopy(it, v, memo_old) for k, v in vals.items()}
         old_class_state = dict(ctx.class_state)
         ctx.ghost["entry_oid"] = ctx.next_oid
+        ctx.ghost["contract_name"] = c.name
         ctx.policy = policy
+        ctx.ghost["in_body"] = True
         ctx.loop_specs = c.loops
         exc = None
         result = None
@@ -241,6 +244,7 @@ def contract_driver(program, c, findings=()):
             exc = e.type_name
         finally:
             ctx.policy = None
+            ctx.ghost["in_body"] = False
             ctx.loop_specs = {}
         label = "ret" if exc is None else "raise " + exc
         ctx.notes.append(label)
